@@ -136,6 +136,7 @@ type prodCfg struct {
 	CAFile  string
 	Poll    time.Duration
 	Dist    string
+	Env     []string // further environment of the process (HTTP_PROXY=...: the host it runs on reaches the outside through an egress proxy)
 	Rate    float64
 	RateSet bool // Rate is meant even when it is 0
 	Metrics bool // serve Prometheus metrics (the binary's --metrics_listen) on a free port
@@ -237,6 +238,7 @@ func startProdOnce(c prodCfg) (*prodProc, error) {
 	}
 	cmd := exec.Command(c.Bin, args...)
 	cmd.Env = append(os.Environ(), "VERIF_LOGS_YAML="+yamlPath)
+	cmd.Env = append(cmd.Env, c.Env...)
 	if c.CAFile != "" {
 		cmd.Env = append(cmd.Env, "SSL_CERT_FILE="+c.CAFile, "SSL_CERT_DIR=/nonexistent")
 	}
